@@ -70,6 +70,70 @@ def _lower_worker(args):
         return None
 
 
+class _FnTable(dict):
+    """module-level functions by name; a name imported from another module of the package resolves to the definition there
+    (a helper moved to a sibling module and imported back is still 'the function of that name in this module')"""
+    prog = mi = None
+
+    def _resolve(self, name):
+        if self.prog is None or not isinstance(name, str):
+            return None
+        tgt = self.mi.imports.get(name)
+        if not tgt or not tgt.startswith('cherab.') or '.' not in tgt:
+            return None
+        busy = self.prog.__dict__.setdefault('_fn_busy', set())
+        if (self.mi.name, name) in busy:
+            return None
+        busy.add((self.mi.name, name))
+        try:
+            modname, simple = tgt.rsplit('.', 1)
+            m = self.prog.modules.get(modname)
+            if self.mi.relpath.endswith('.pxd') or (m is not None and dict.get(m.functions, simple) is None):
+                # an inline function of a declaration file
+                pm = self.prog.modules.get(modname + '#pxd')
+                if pm is None:
+                    rel = modname.replace('.', os.sep) + '.pxd'
+                    if os.path.exists(os.path.join(self.prog.root, rel)):
+                        try:
+                            pm = self.prog.load(rel)
+                        except Exception:
+                            pm = None
+                if pm is not None and isinstance(pm.functions.get(simple), ast.FunctionDef):
+                    return pm.functions.get(simple)
+            if m is None:
+                for ext in ('.py', '.pyx'):
+                    rel = modname.replace('.', os.sep) + ext
+                    if os.path.exists(os.path.join(self.prog.root, rel)):
+                        try:
+                            m = self.prog.load(rel)
+                        except Exception:
+                            m = None
+                        break
+            if m is None:
+                return None
+            f = m.functions.get(simple)
+            return f if isinstance(f, ast.FunctionDef) else None
+        finally:
+            busy.discard((self.mi.name, name))
+
+    def get(self, name, default=None):
+        if dict.__contains__(self, name):
+            return dict.__getitem__(self, name)
+        f = self._resolve(name)
+        return default if f is None else f
+
+    def __getitem__(self, name):
+        if dict.__contains__(self, name):
+            return dict.__getitem__(self, name)
+        f = self._resolve(name)
+        if f is None:
+            raise KeyError(name)
+        return f
+
+    def __contains__(self, name):
+        return dict.__contains__(self, name) or self._resolve(name) is not None
+
+
 class ModuleInfo:
     def __init__(self, relpath, tree, name):
         self.relpath = relpath
@@ -78,7 +142,7 @@ class ModuleInfo:
         self.is_cython = relpath.endswith(('.pyx', '.pxd'))
         self.imports = {}     # local name -> qualified dotted target
         self.star_imports = []
-        self.functions = {}
+        self.functions = _FnTable()
         self.classes = {}
         self.assigns = {}     # top-level NAME = expr
         pkg = name.split('.')
@@ -207,9 +271,17 @@ class Program:
             raise
         except Exception as e:
             raise AnalysisError('front end failed on %s: %s: %s' % (relpath, type(e).__name__, e))
+        try:
+            from . import alpha
+            alpha.record(relpath, alpha.normalise(self.root, relpath, tree))
+        except AnalysisError:
+            raise
+        except Exception:
+            pass
         for n in ast.walk(tree):
             n.relpath = relpath
         mi = ModuleInfo(relpath, tree, name)
+        mi.functions.prog, mi.functions.mi = self, mi
         self.modules[self._key(relpath)] = mi
         if relpath.endswith('.pxd'):
             return mi
@@ -290,7 +362,7 @@ class Program:
         if pm is not None:
             tgt = pm.imports.get(name.split('.')[0])
             if tgt:
-                c = self._follow(tgt)
+                c = self._follow(tgt if '.' not in name else tgt + '.' + name.split('.', 1)[1])
                 if c is not None:
                     return c
         cands = self.by_simple.get(simple, [])
